@@ -13,6 +13,48 @@ ID = 'C25'
 TITLE = 'Migrations are total and reach the current schema'
 PROPS = ['Props/C25']
 DISABLED = True
+RULE = ('Documents "at version K" are generated offline for every K in 0..SCHEMA_VERSION: the version-0 schema of '
+        'test_migrations + the real migrations 1..K give the version-K metadata schema; every metadata table gets 0-3 '
+        'rows of type-correct cells in the form create_migrations receives them (references to existing rows or 0, '
+        'Bool as True/False/0/1, RefList/ChoiceList as None or JSON text), 0-3 consistent user tables with data '
+        '(Ref/Image/Derived columns, old- and new-style summary tables), plus schema variants (lax version-0 docs, the '
+        'two divergent version-38 schemas). Text cells: stream "expected" = the shape each migration parses + '
+        'non-JSON text; stream "anyjson" = valid JSON of every other shape. Separate streams: user tables whose names '
+        'look like old summary tables, documents at/after the current version, and a robustness stream of '
+        'referentially or type-inconsistent documents (counted, outside the premise). correspond: (a) random action '
+        'streams (all 14 kinds, errors included) through the TableDataSet model; (b) the real create_migrations, '
+        'instrumented, on "expected" documents of every version: driver model with the recorded per-migration '
+        'actions, and the returned actions replayed on the document in the model, compared with the real '
+        'TableDataSet, with meta_only / schema-subsequence / user-table frame evaluated. A case is non-trivial when '
+        'at least one migration runs or the document has user tables.')
+TRUSTED = ['Model/Migrate.v is hand-written: TableDataSet (14 actions + exception classes) and the driver of '
+           'create_migrations; compared with the running code on every run (vm_compute, exact states)',
+           'the 46 migration bodies and the loading prelude of create_migrations (build_schema, AddTable/BulkAddRecord '
+           'of the input) are NOT modelled: the driver theorems quantify over arbitrary migration functions',
+           'monitor: every migration returns tdset.apply_doc_actions(...) and mutates the tdset in no other way '
+           '(AST check + final tdset compared with the model)',
+           'row ids are ints or None and column ids are strings in the model; other documents are skipped and counted']
+ASSUMPTIONS = ['premise of the search: metadata cells hold values of their declared types as stored in the document '
+               'file; metadata is referentially consistent (tables have columns, a view section names a table, '
+               'old-style summary names carry existing column refs)',
+               'C25_version_after_migration: _grist_DocInfo still has record 1 first and a schemaVersion column when '
+               'the final update is applied (checked on every generated document)']
+TECHNIQUE = ('Coq proofs about a hand-written model of the doc-action interpreter and the migration driver (migration '
+             'bodies abstract) + exact differential replay of real migrations in the model + implementation oracle on '
+             'generated documents of every schema version')
+LEVEL_TEXT = ('kernel (weak). Kernel-checked for ALL migration functions, tdsets and action lists: a document at or '
+              'beyond the current version yields exactly the schemaVersion update, which rewrites one column of '
+              '_grist_DocInfo and nothing else; the driver runs exactly versions doc_version+1..current, each once, in '
+              'order, each on its predecessor\'s tdset, returns their actions followed by the version update, and '
+              'adds no failure of its own; actions naming only _grist_ tables (more generally: not naming table u) '
+              'leave user tables (table u) untouched; the schema after applying actions is determined by the '
+              'Add/Remove/Rename/Modify Column|Table subsequence. NOT proved: that the 46 real migration bodies never '
+              'raise and reach schema_create_actions() on all type-correct metadata (C25_full_statement stays a '
+              'Definition) - this is covered only by the differential link and the search on generated documents of '
+              'every version, which does find documents on which they raise (known findings).')
+LEVEL_NOTE = ('Weak on purpose: the migration bodies are Section variables. Trusted: Coq kernel, the hand-written model '
+              '(tied by exact replay each run), json/re and the unmodelled prelude. The search premise adds referential '
+              'consistency to type-correct cells; inconsistent documents are a counted robustness stream.')
 
 GRIST = '_grist_'
 
@@ -298,18 +340,19 @@ def dec_json(v):
   return v
 
 
-def witness_of(doc, metadata_only=False):
+def witness_of(doc, metadata_only=False, snapshot=None):
+  """The document as data; `snapshot` (from snap) when doc.tds has been modified since."""
   actions = mods()[0]
-  sch = doc.tds.get_schema()
+  data, sch = snapshot if snapshot is not None else snap(doc.tds)
   w = {'version': doc.version, 'metadata_only': metadata_only, 'stream': doc.stream,
        'extra': [enc_json(actions.get_action_repr(a)) for a in doc.extra], 'tables': {}, 'user': []}
-  for t, d in sorted(doc.tds.all_tables.items()):
+  for t, (rows, columns) in sorted(data.items()):
     if t.startswith(GRIST):
-      if d.row_ids:
-        w['tables'][t] = {'ids': list(d.row_ids), 'cols': {c: enc_json(vs) for c, vs in sorted(d.columns.items())}}
+      if rows:
+        w['tables'][t] = {'ids': list(rows), 'cols': {c: enc_json(vs) for c, vs in sorted(columns.items())}}
     else:
-      cols = [dict(sch[t][c]) for c in d.columns]
-      w['user'].append([t, cols, list(d.row_ids), {c: enc_json(vs) for c, vs in d.columns.items()}])
+      cols = [dict(sch[t][c]) for c in columns]
+      w['user'].append([t, cols, list(rows), {c: enc_json(vs) for c, vs in columns.items()}])
   return w
 
 
@@ -387,10 +430,10 @@ def run_doc(doc, metadata_only=False):
     migrations.table_data_set = saved_tds
   if len(seen) != 1:
     raise core.TieBroken('create_migrations no longer builds exactly one TableDataSet (%d)' % len(seen))
+  if r.T0 is None:
+    r.T0 = snap(seen[0])            # no migration was called: the tdset is still as loaded
   if r.exc is None:
     r.T1 = snap(seen[0])
-    if r.T0 is None:
-      r.T0 = r.T1
     try:
       doc.tds.apply_doc_actions(r.acts)
     except Exception as e:
@@ -472,11 +515,40 @@ def problems(r):
       if not all(t.startswith(GRIST) for t in action_tables(a)) and \
          type(a).__name__ not in USER_TABLE_ACTIONS.get(v, ()):
         out.append(('touches-user-table', 'migration %d emits %s on %r' % (v, type(a).__name__, action_tables(a))))
-  out.extend(user_cells_problem(r))
+  over = overwritten_columns(r)
+  for v, t, c in over:
+    out.append(('overwrites-column:m%d' % v, 'migration %d emits AddColumn %s.%s although the column exists '
+                '(TableDataSet replaces it: its cells are lost)' % (v, t, c)))
+  out.extend(user_cells_problem(r, {(t, c) for _, t, c in over}))
   return out
 
 
-def user_cells_problem(r):
+def overwritten_columns(r):
+  """[(migration, table, column)]: AddColumn actions that name a column the document already has."""
+  cols = {t: set(cs) for t, (_, cs) in r.before[0].items()}
+  out = []
+  for v, acts in r.rec:
+    for a in acts:
+      n = type(a).__name__
+      if n == 'AddTable':
+        cols[a[0]] = {c['id'] for c in a[1]}
+      elif n == 'RemoveTable':
+        cols.pop(a[0], None)
+      elif n == 'RenameTable':
+        cols[a[1]] = cols.pop(a[0], set())
+      elif n == 'AddColumn':
+        if a[1] in cols.get(a[0], set()):
+          out.append((v, a[0], a[1]))
+        cols.setdefault(a[0], set()).add(a[1])
+      elif n == 'RemoveColumn':
+        cols.get(a[0], set()).discard(a[1])
+      elif n == 'RenameColumn':
+        cols.get(a[0], set()).discard(a[1])
+        cols.setdefault(a[0], set()).add(a[2])
+  return out
+
+
+def user_cells_problem(r, skip=()):
   """Cells of user tables are untouched, except the documented conversion of Image columns (migration 17) and
   columns that migration 7 removes from old-style summary tables; tables are followed through RenameTable."""
   names = {t: t for t in r.before[0] if not t.startswith(GRIST)}
@@ -496,7 +568,7 @@ def user_cells_problem(r):
     if rows0 != rows1:
       out.append(('user-cells-changed', 'row ids of user table %r changed' % (orig,)))
     for c, vs in cols0.items():
-      if bsch[orig][c].get('type') == 'Image' or (c not in cols1 and r.doc.version < 7):
+      if bsch[orig][c].get('type') == 'Image' or (c not in cols1 and r.doc.version < 7) or (now, c) in skip:
         continue
       if c not in cols1 or not same_values(cols1[c], vs):
         out.append(('user-cells-changed', 'cells of %s.%s changed: %r -> %r' % (orig, c, vs, cols1.get(c))))
@@ -568,25 +640,31 @@ def classify(w, r):
     if r.metadata_only and isinstance(exc, Exception) and str(exc).startswith('need all tables for migration'):
       break                                  # the documented request to be called again with all tables
     blamed = None
-    for (t, c), idxs in sorted(odd_cells(w).items()):
-      w2 = with_cells(w, t, c, idxs)
-      r2 = run_w(w2)
-      if r2.exc is None or r2.site != site:
-        # one cell is enough: put the odd cells back one at a time until the failure returns
-        culprit = idxs[0]
+    odd = sorted(odd_cells(w).items())
+    for (t, c), idxs in odd:
+      # isolate the group: every OTHER odd cell reset; the failure must persist, and vanish with this group
+      wiso = w
+      for (t2, c2), idxs2 in odd:
+        if (t2, c2) != (t, c):
+          wiso = with_cells(wiso, t2, c2, idxs2)
+      riso = run_w(wiso) if len(odd) > 1 else r
+      if riso.exc is None or riso.site != site:
+        continue
+      rcured = run_w(with_cells(wiso, t, c, idxs))
+      if rcured.exc is None or rcured.site != site:
+        # one cell is enough: in the isolated document keep a single odd cell of the group
+        culprit, wmin = idxs[0], wiso
         for i in idxs:
-          w3 = with_cells(w, t, c, [k for k in idxs if k != i])
-          r3 = run_w(w3)
-          if r3.exc is not None and r3.site == site:
-            culprit, wmin = i, w3
+          w1 = with_cells(wiso, t, c, [k for k in idxs if k != i])
+          r1 = run_w(w1)
+          if r1.exc is not None and r1.site == site:
+            culprit, wmin = i, w1
             break
-        else:
-          wmin = w
-        val = w['tables'][t]['cols'][c][culprit]
-        blamed = ('json-shape:%s:%s.%s' % (site, t, c),
+        blamed = ('json-shape:%s:%s' % (site, c),
                   'migration %s assumes a JSON shape in %s.%s: cell %r -> %s: %s'
-                  % (site[1:], t, c, val, type(exc).__name__, exc), wmin)
-        w, r = w2, r2
+                  % (site[1:], t, c, w['tables'][t]['cols'][c][culprit], type(riso.exc).__name__, riso.exc), wmin)
+        w = with_cells(w, t, c, idxs)          # go on with this group repaired: later sites may fail too
+        r = run_w(w)
         break
     if blamed is None and site == 'm7' and isinstance(exc, ValueError):
       import re
@@ -952,6 +1030,10 @@ def doc_stream(ctx, per_version, stream, variants=VARIANTS):
       yield gen_doc(ctx.rng, v, stream, variant)
 
 
+def shard8(cases):
+  return max(1, -(-len(cases) // 8))       # one wave of at most 8 coqc processes
+
+
 def correspond(ctx):
   import logging
   logging.disable(logging.CRITICAL)
@@ -973,7 +1055,7 @@ def correspond(ctx):
               sample={'actions': [repr(a) for a in acts][:3], 'raises': type(exc).__name__ if exc else None})
     for k in kinds:
       ctx.bump('tds-action:' + k)
-  bad = ctx.run_cases('tds', IMPORTS, APPLY_CHECK, cases, shard=100, extra_defs=POOL.defs_for, case_type=APPLY_TYPE)
+  bad = ctx.run_cases('tds', IMPORTS, APPLY_CHECK, cases, shard=shard8(cases), extra_defs=POOL.defs_for, case_type=APPLY_TYPE)
   for i in bad[:5]:
     ctx.broken('correspondence:TableDataSet model differs from table_data_set.TableDataSet',
                'actions %r on %r (real: %r)' % (kept[i][1], kept[i][0], kept[i][2]))
@@ -1003,7 +1085,7 @@ def correspond(ctx):
   if len(runs) < current_version():
     raise core.TieBroken('only %d of the generated documents could be replayed in the model' % len(runs))
   both = 'fun c => (%s) (fst c) && (%s) (snd c)' % (DRIVER_CHECK, APPLY_CHECK)
-  bad = ctx.run_cases('link', IMPORTS, both, lcases, shard=6, extra_defs=POOL.defs_for,
+  bad = ctx.run_cases('link', IMPORTS, both, lcases, shard=shard8(lcases), extra_defs=POOL.defs_for,
                       case_type='(%s) * (%s)' % (DRIVER_TYPE, APPLY_TYPE))
   for i in bad[:3]:
     r, d, a = runs[i]
@@ -1013,3 +1095,109 @@ def correspond(ctx):
       ctx.broken('correspondence:driver model differs from migrations.create_migrations', where)
     if ctx.run_cases('link_a%d' % i, IMPORTS, APPLY_CHECK, [a], extra_defs=POOL.defs_for, case_type=APPLY_TYPE):
       ctx.broken('correspondence:migration actions replayed in the model differ from TableDataSet', where)
+
+
+# ---------------------------------------------------------------------------------------------
+# search: the property itself on generated old-version documents
+
+def corrupt(rng, w):
+  """One referential or type inconsistency (outside the property's premise): the robustness stream."""
+  w = copy.deepcopy(w)
+  T, C = w['tables'].get('_grist_Tables'), w['tables'].get('_grist_Tables_column')
+  choice = rng.randrange(6)
+  if choice == 0 and C:
+    C['cols']['parentId'][rng.randrange(len(C['ids']))] = 99
+    return w, 'dangling parentId'
+  if choice == 1 and T:
+    T['ids'].append(max(T['ids']) + 1)
+    for c, vs in T['cols'].items():
+      vs.append('Ghost' if c == 'tableId' else (vs[0] if not isinstance(vs[0], str) else ''))
+    return w, 'table without columns'
+  if choice == 2:
+    cands = [(t, c) for t, d in w['tables'].items() for c, vs in d['cols'].items() if vs and isinstance(vs[0], str)]
+    if cands:
+      t, c = rng.choice(sorted(cands))
+      w['tables'][t]['cols'][c][0] = None
+      return w, 'None in a Text cell'
+  if choice == 3 and C and 'rules' in C['cols']:
+    C['cols']['rules'][0] = [1, 2]
+    return w, 'Python list in a RefList cell'
+  if choice == 4 and '_grist_Views_section' in w['tables']:
+    S = w['tables']['_grist_Views_section']
+    S['cols']['tableRef'][0] = 0
+    S['cols']['parentKey'][0] = 'record'
+    return w, 'view section without a table'
+  if choice == 5 and w['user'] and w['version'] < 7:
+    return rename_user_table(w, w['user'][0][0], 'Summary_%s_77' % w['user'][-1][0]), 'summary name with a dangling ref'
+  return w, None
+
+
+def check_doc(ctx, doc, mo, label):
+  """Run one document; report violations; returns the run."""
+  r = run_doc(doc, mo)
+  cur = current_version()
+  ctx.count((label, doc.version, ctx.evaluations), nontrivial=doc.version < cur or bool(doc.user_tables),
+            kind='search:%s' % label)
+  if r.exc is not None:
+    w = witness_of(doc, mo, r.before)
+    for kind, what, wit in classify(w, r):
+      ctx.bump('search:raises:' + kind)
+      ctx.violation(kind, what, wit)
+  else:
+    for kind, what in problems(r):
+      ctx.violation(kind, what, witness_of(doc, mo, r.before))
+  return r
+
+
+def search(ctx):
+  import logging
+  logging.disable(logging.CRITICAL)
+  cur = current_version()
+  per = ctx.n(3, 60)
+  for doc in doc_stream(ctx, per, 'expected'):
+    check_doc(ctx, doc, ctx.rng.random() < 0.3, 'expected')
+  for doc in doc_stream(ctx, per + 1, 'anyjson', [None, None, 'mishap38', 'v0_lax']):
+    check_doc(ctx, doc, ctx.rng.random() < 0.2, 'anyjson')
+  for v in range(0, 7):
+    for _ in range(ctx.n(2, 20)):
+      check_doc(ctx, gen_doc(ctx.rng, v, 'expected', 'summary_norefs'), False, 'summary-like-names')
+  # documents at or beyond the current version (downgrade: only the version update)
+  for v in (cur, cur, cur + 1, cur + 3):
+    for _ in range(ctx.n(3, 30)):
+      doc = gen_doc(ctx.rng, cur, 'anyjson')
+      doc.tds.apply_doc_action(mods()[0].UpdateRecord('_grist_DocInfo', 1, {'schemaVersion': v}))
+      doc.version = v
+      r = run_doc(doc, False)
+      ctx.count(('current', v, ctx.evaluations), nontrivial=True, kind='search:current-or-newer')
+      last = mods()[0].UpdateRecord('_grist_DocInfo', 1, {'schemaVersion': cur})
+      if r.exc is not None or r.acts != [last] or r.rec or canon(user_part(r.before)) != canon(user_part(r.after)):
+        ctx.violation('current-doc-not-noop', 'a document at version %d: %r' % (v, r.exc or r.acts[:3]),
+                      dict(witness_of(doc, False, r.before), version=cur, docinfo_version=v))
+  # robustness stream: inconsistent documents, counted but outside the premise
+  raised = {}
+  for doc in doc_stream(ctx, ctx.n(2, 20), 'expected'):
+    w, what = corrupt(ctx.rng, witness_of(doc))
+    if what is None:
+      continue
+    w['stream'] = 'robust'
+    r = run_w(w)
+    ctx.bump('robust:' + ('raises' if r.exc is not None else 'ok'))
+    if r.exc is not None:
+      raised.setdefault('%s -> %s in %s' % (what, type(r.exc).__name__, r.site), []).append(doc.version)
+  if raised:
+    ctx.extra['robustness_stream'] = {k: len(v) for k, v in sorted(raised.items())}
+
+
+def replay(ctx, w):
+  import logging
+  logging.disable(logging.CRITICAL)
+  doc = doc_of(w)
+  if 'docinfo_version' in w:
+    doc.tds.apply_doc_action(mods()[0].UpdateRecord('_grist_DocInfo', 1, {'schemaVersion': w['docinfo_version']}))
+    doc.version = w['docinfo_version']
+  r = run_doc(doc, w.get('metadata_only', False))
+  if r.exc is not None:
+    found = classify(witness_of(doc, w.get('metadata_only', False), r.before), r)
+    return found[0][1] if found else None
+  ps = problems(r)
+  return ps[0][1] if ps else None
